@@ -38,4 +38,50 @@ def modelEncode {p d : Nat} (A : Mat GF256 p d) (data : Array ByteArray) (len : 
 def fastEncode {p d : Nat} (A : Mat GF256 p d) (data : Array ByteArray) (len : Nat) : Array ByteArray :=
   (matRows A).map fun row => fastRow row data len
 
+/-- data shards for (d, size, seed) -/
+def mkData (d size : Nat) (seed : UInt64) : Array ByteArray :=
+  Array.ofFn fun c : Fin d => fillBytes seed c.val size
+
+
+/-- table-driven evaluation of the reconstruct algorithm on byte arrays: same steps as
+`Model.reconstructWith` (first `d` present rows, `invert`, decode, re-encode parity) with the
+row products done by `fastRow`.  `blocks[i].size = 0` = missing.  Modes: all / dataOnly. -/
+def reconFast {p d : Nat} (A : Mat GF256 p d) (blocks : Array ByteArray) (size : Nat) (dataOnly : Bool) :
+    Except Nat (Array ByteArray) :=
+  let total := d + p
+  let present : Fin total → Bool := fun i => blocks[i.val]!.size ≠ 0
+  let nPresent := countTrue present
+  let dataPresent := countTrue fun i => present i && decide (i.val < d)
+  if nPresent = total || (dataOnly && dataPresent = d) then .ok blocks
+  else if nPresent < d then .error 1
+  else
+    let valid := firstPresent present d
+    let sub : Mat GF256 d d := Mat.ofFn fun i c =>
+      match valid[i.val]? with
+      | some vi => genRow A vi c
+      | none => 0
+    match invert sub with
+    | none => .error 2
+    | some dec =>
+      let subBlocks : Array ByteArray := (valid.map fun vi => blocks[vi.val]!).toArray
+      let decRows := matRows dec
+      let data : Array ByteArray := Array.ofFn fun c : Fin d =>
+        if blocks[c.val]!.size ≠ 0 then blocks[c.val]! else fastRow decRows[c.val]! subBlocks size
+      if dataOnly then .ok (Array.ofFn fun i : Fin total => if h : i.val < d then data[i.val]! else blocks[i.val]!)
+      else
+        let rows := matRows A
+        .ok (Array.ofFn fun i : Fin total =>
+          if i.val < d then data[i.val]!
+          else if blocks[i.val]!.size ≠ 0 then blocks[i.val]! else fastRow rows[i.val - d]! data size)
+
+/-- the generic model on the same input (slow; small inputs only) -/
+def reconModel {p d : Nat} (A : Mat GF256 p d) (blocks : Array ByteArray) (size : Nat) (dataOnly : Bool) :
+    Except Nat (Array ByteArray) :=
+  let shA : Array (Option (Shard GF256 size)) := Array.ofFn fun i : Fin (d + p) =>
+    if blocks[i.val]!.size = size then some (shardOfBytes blocks[i.val]! size) else none
+  match reconstruct A (fun i => shA[i.val]!) (if dataOnly then .dataOnly else .all) with
+  | .error .tooFew => .error 1
+  | .error .singular => .error 2
+  | .ok out => .ok (Array.ofFn fun i : Fin (d + p) => match out i with | some s => bytesOfShard s | none => ByteArray.empty)
+
 end Drv
